@@ -6,6 +6,7 @@ CONSTANTS
   DialDataRPM = 1
   MaxConc = 1
   W = 3
+  DoubleRelease = FALSE
 INIT Init
 NEXT Next
 VIEW View
